@@ -23,7 +23,7 @@ use std::time::{Duration, Instant};
 pub static META: PropMeta = PropMeta {
     id: "C11",
     level: "exploration",
-    rule: "cases: the loop thread runs run(None | 3 s) or block_on(scripted future), in 40% of the cases with a timer armed for one hour in the loop (so that the wait is bounded by a timer deadline); 1..2 actor threads with programs over wakeup / stop / stop+wakeup (run mode) or wake / wake_by_ref+clone / complete+wake / stop+wakeup (block_on mode), released only after the loop thread passed the 'run began' site; in block_on mode the future may additionally wake itself during its first 1..3 polls (on the loop thread), in some cases with no other wake-up source at all; the schedule over all yield sites is generated. oracle (logical clock of the controller, blocked-in-kernel detected via /proc): after a wakeup() returned, the wait in progress or the next one returns (a loop thread still asleep in the poller with no wait-return after the wake-up, observed over 300 scheduling rounds, is a lost wake-up); after stop() then wakeup() returned the loop enters the wait at most once more and run returns Ok; run/block_on never return without cause (Ok/None only after a stop began, Some(v) only after the future returned Ready(v)); the future is polled initially and a poll starts after every wake that began while it was pending. non-trivial: an actor's signal site falls between the loop's stop-flag check and its entry into the wait, or between the waker's flag store and its notify, or between the loop's flag swap and its wait; distinct by case fingerprint",
+    rule: "cases: the loop thread runs run(None | 3 s) or block_on(scripted future), in 40% of the cases with a timer armed for one hour in the loop (so that the wait is bounded by a timer deadline); 1..2 actor threads with programs over wakeup / stop / stop+wakeup (run mode) or wake / wake_by_ref+clone / complete+wake / stop+wakeup (block_on mode), released only after the loop thread passed the 'run began' site; in block_on mode the future may additionally wake itself during its first 1..3 polls (on the loop thread), in some cases with no other wake-up source at all; the schedule over all yield sites is generated. oracle (logical clock of the controller, blocked-in-kernel detected via /proc): after a wakeup() returned, the wait in progress or the next one returns (a loop thread still asleep in the poller with no wait-return after the wake-up, observed over 300 scheduling rounds, is a lost wake-up); after stop() then wakeup() returned the loop enters the wait at most once more and run returns Ok; run/block_on never return without cause (Ok/None only after a stop began, Some(v) only after the future returned Ready(v)); the future is polled initially and a poll starts after every wake that began while it was pending. non-trivial: an actor's signal site falls between the loop's stop-flag check and its entry into the wait, or between the waker's flag store and its notify, or between the loop's flag swap and its wait; distinct by case fingerprint; (inloop) 1..5 loop iterations whose timer callback issues 0..4 of stop / complete the future / wake it / wakeup / insert_idle on the loop thread, run() or block_on(), result + poll count + completed iterations + idles + closure runs compared with a reference model; non-trivial: a stop in the same callback as a wake or an idle insertion",
     assumptions: &[
         "interleavings at yield-site granularity, x86-TSO, real atomics and real poller notification (eventfd)",
         "'promptly' is never a duration: only a loop thread provably asleep in the kernel with an unserved wake-up counts",
